@@ -96,7 +96,10 @@ class RoleChecker:
             kinds = {a for a, _ in sub}
             if len(kinds) == 1:
                 out.extend(sub)
-            # mixed-axis product: an area / count -> opaque
+            elif any("stride" in t or "dilation" in t for _, t in sub):
+                # a coordinate scaled by the stride / dilation of another axis is never an area: keep the leaves
+                out.extend(sub)
+            # other mixed-axis products: an area / count -> opaque
         elif isinstance(node, ast.UnaryOp):
             self.axes(node.operand, out)
         elif isinstance(node, ast.Call) and call_name(node) in ("max", "min", "abs", "int", "round_up", "round_up_divide", "numeric_util.round_up",
